@@ -254,6 +254,36 @@ func c20Helpers() []helper {
 		{"IRIs.Contains", func(it ap.Item, _ *cbProbe) string {
 			return fmt.Sprint(ap.IRIs{"https://example.com/a"}.Contains(it))
 		}},
+		// the nil kind as the argument of Remove on a list that holds nil entries of several kinds next to a valid member:
+		// the valid member stays, wherever the nil entries stand
+		{"[x,obj,nil].Remove(x)", func(it ap.Item, _ *cbProbe) string {
+			valid := &ap.Object{ID: "https://example.com/b"}
+			out := ""
+			for _, l := range []ap.ItemCollection{{it, valid, nil}, {nil, it, valid}, {valid, it, (*ap.Actor)(nil)}, {it, it, valid, it}} {
+				l.Remove(it)
+				l.Remove((*ap.Activity)(nil))
+				out += fmt.Sprint(l.Contains(valid), " ")
+			}
+			return out
+		}},
+		// the nil kind as a MEMBER of each collection kind, standing before the member that is asked for (by IRI, by
+		// object): found, and appended things still arrive
+		{"kinds{act,x,iri}.Contains(iri)", func(it ap.Item, _ *cbProbe) string {
+			act := &ap.Activity{ID: "https://example.com/act", Type: ap.CreateType}
+			iri := ap.IRI("https://example.com/last")
+			mk := func() ap.ItemCollection { return ap.ItemCollection{act, it, iri} }
+			cols := []ap.CollectionInterface{&ap.Collection{Items: mk()}, &ap.OrderedCollection{OrderedItems: mk()}, &ap.CollectionPage{Items: mk()},
+				&ap.OrderedCollectionPage{OrderedItems: mk()}}
+			l := mk()
+			cols = append(cols, &l)
+			out := ""
+			for _, c := range cols {
+				out += fmt.Sprint(c.Contains(iri), c.Contains(&ap.Object{ID: "https://example.com/last"}), c.Contains(ap.IRI("https://example.com/absent")))
+				_ = c.Append(ap.IRI("https://example.com/new"))
+				out += fmt.Sprint(c.Contains(ap.IRI("https://example.com/new")), " ")
+			}
+			return out
+		}},
 		{"IRIs.Append", func(it ap.Item, _ *cbProbe) string {
 			c := ap.IRIs{"https://example.com/a"}
 			_ = c.Append(it)
@@ -468,6 +498,10 @@ func c20Neutral(h string) string {
 		return "https://example.com/a/inbox https://example.com/a/outbox https://example.com/a/followers https://example.com/a/following https://example.com/a/liked"
 	case "DerefItem":
 		return "0"
+	case "[x,obj,nil].Remove(x)":
+		return "true true true true "
+	case "kinds{act,x,iri}.Contains(iri)":
+		return strings.Repeat("true true falsetrue ", 5)
 	}
 	return ""
 }
